@@ -54,8 +54,16 @@ func c07Expected(nc *nats.Conn, root string) map[string]string {
 			case "vdev":
 				ch, _ := client.GetNodes(nc, k.ID, "all", "vchild", false)
 				var ids []string
+				nec := data.NodeEdgeChildren{NodeEdge: k}
 				for _, c := range ch {
 					ids = append(ids, c.ID)
+					nec.Children = append(nec.Children, data.NodeEdgeChildren{NodeEdge: c})
+				}
+				// a node whose points do not decode into the client's configuration gets no client (only used to
+				// decide how long to wait)
+				var cfg Vdev
+				if data.Decode(nec, &cfg) != nil {
+					continue
 				}
 				sort.Strings(ids)
 				out[k.Parent+"-"+k.ID] = strings.Join(ids, "+")
@@ -269,14 +277,35 @@ func c07Gen(r *rand.Rand, n int, tier string) []string {
 		var vdevs []string
 		add("c1", pick(r, containers), "vdev")
 		vdevs = append(vdevs, "c1")
+		// sometimes a client node "cb" that holds, from before its first placement, a point its configuration cannot
+		// take (a slice element keyed by something that is no index): newClientState fails for it at every scan, so it
+		// never has a client, while the manager keeps serving all the others
+		cids := []string{"c1", "c1", "c2"}
+		if r.Intn(4) == 0 {
+			ops = append(ops, "np:"+hxs("cb")+":"+fmt.Sprintf("%s,%s,%s,-,%d,0,-,-", hxs("level"), hxs(pick(r, []string{"abc", "-1", "1e3"})), valStr(1), tick()))
+			cids = []string{"c1", "cb", "cb", "c2"}
+			add("cb", pick(r, containers), "vdev")
+			vdevs = append(vdevs, "cb")
+		}
 		for s := 0; s < 2+r.Intn(7); s++ {
 			switch k := r.Intn(14); {
 			case k < 4: // a client node (new, or another placement of an existing one)
-				id := pick(r, []string{"c1", "c1", "c2"})
+				id := pick(r, cids)
 				add(id, pick(r, containers), "vdev")
 				vdevs = append(vdevs, id)
 			case k < 6 && len(vdevs) > 0: // child added
-				add(pick(r, []string{"k1", "k2"}), pick(r, vdevs), "vchild")
+				kid, par := pick(r, []string{"k1", "k2"}), pick(r, vdevs)
+				add(kid, par, "vchild")
+				if r.Intn(4) == 0 {
+					// ... then deleted and undeleted again (each change on its own): the client is restarted each time and
+					// ends up with the child back in its configuration
+					for _, v := range []int{1, 0} {
+						if settled {
+							ops = append(ops, "w")
+						}
+						ops = append(ops, "ep:"+hxs(kid)+":"+hxs(par)+":"+tomb(v))
+					}
+				}
 			case k < 10 && len(edges) > 0: // delete / undelete an edge (client placement, child, container)
 				e := pick(r, edges)
 				if settled && e.typ == "vchild" {
